@@ -109,6 +109,28 @@ func wktCorpus(level int) []*ref.G {
 		for _, rs := range ref.Seqs([]int{4, 5}, 3) {
 			simple = append(simple, &ref.G{Kind: ref.Polygon, Layout: l, C2: wktPolygon(l, rs, ref.Counter())})
 		}
+		// positions that coincide: a ring whose four positions are one point, a ring that goes out
+		// and back (a b b a), a proper shell with such a hole; a line of two equal positions, a line
+		// a b a, a line whose two positions differ in the last ordinate only; as multi-geometry members
+		{
+			pa, pb := ref.NewPoint(l, true, ref.CounterFrom(3)).C0, ref.NewPoint(l, true, ref.CounterFrom(40)).C0
+			cp := func(c ref.C) ref.C { return append(ref.C{}, c...) }
+			dot := []ref.C{cp(pa), cp(pa), cp(pa), cp(pa)}
+			outBack := []ref.C{cp(pa), cp(pb), cp(pb), cp(pa)}
+			shell := wktPolygon(l, []int{5}, ref.CounterFrom(100))[0]
+			last := cp(pa)
+			last[len(last)-1] += 10
+			simple = append(simple,
+				&ref.G{Kind: ref.Polygon, Layout: l, C2: [][]ref.C{dot}},
+				&ref.G{Kind: ref.Polygon, Layout: l, C2: [][]ref.C{outBack}},
+				&ref.G{Kind: ref.Polygon, Layout: l, C2: [][]ref.C{shell, dot, outBack}},
+				&ref.G{Kind: ref.MultiPolygon, Layout: l, C3: [][][]ref.C{{}, {outBack}, {shell, dot}}},
+				&ref.G{Kind: ref.LineString, Layout: l, C1: []ref.C{cp(pa), cp(pa)}},
+				&ref.G{Kind: ref.LineString, Layout: l, C1: []ref.C{cp(pa), cp(pb), cp(pa)}},
+				&ref.G{Kind: ref.LineString, Layout: l, C1: []ref.C{cp(pa), last}},
+				&ref.G{Kind: ref.MultiLineString, Layout: l, C2: [][]ref.C{{}, {cp(pa), cp(pb), cp(pa)}, {cp(pb), cp(pb)}}},
+			)
+		}
 		multiLen := 4 + level
 		for _, p := range ref.Seqs([]int{0, 1}, multiLen+1) {
 			simple = append(simple, ref.NewMultiPoint(l, p, ref.Counter()))
